@@ -325,7 +325,11 @@ def run(ctx):
                     if lm != lv:
                         ctx.ob("C03.b", opt, "%s: %s" % (iname, cons), False,
                                "matrix rows are selected by letter(s) %s but the right-hand side by %s: the row mask of A and "
-                               "of b differ" % (sorted(lm), sorted(lv)), node=n)
+                               "of b differ (or the right-hand side of these rows is not taken from b at all)" % (sorted(lm), sorted(lv)), node=n)
+                        seen_letters |= lm
+                        if "N" in lm:   # for C01 only the relation matters: nodal rows built by the portfolio have b = 0
+                            ctx.ob("C01.c", opt, "%s: letter N" % iname, REL_NAME.get(op, "?") == "==",
+                                   "nodal rows must be equalities, found %s" % REL_NAME.get(op, "?"), node=n)
                         continue
                     if len(lm) != 1:
                         ctx.ob("C03.b", opt, "%s: %s" % (iname, cons), None, "cannot attribute the constraint to a single letter %s" % sorted(lm), node=n)
